@@ -18,9 +18,42 @@ def run(ctx):
             # no time limit and the clock jumps by four months in mid-search (driver mode k): C16_clock_free
             return "k" in case["specs"][0]
         return case["group"] in ("value", "seq", "material") and not (dv.get("spec") or "").endswith("x")
+    def internal(case, dv):
+        # determinism is judged on the engine itself (repeated runs, second process, under load, with a jumping clock: below); that the
+        # result equals the MODEL function is how the theorem C16_clock_free is tied to the code — a correspondence
+        return dv["field"] != "engine-panic"
     r = SP.corr(ctx, prop, ("value", "seq", "cut", "material"), relevant,
                 "fixed-depth search differs from the model function (best move / score / node count / cache writes)",
-                violations, cov)
+                violations, cov, internal=internal)
+    # C16_clock_free on the engine alone: with NO time limit set, a clock that jumps by 10^10 ms in mid-search changes nothing —
+    # the run must equal the plain run of the same search (best move, score, nodes, seldepth, complete cache-write trace)
+    if r is not None:
+        full = {}
+        for c, e in zip(r["cases"], r["engine"]):
+            if c["group"] == "cut-full" and e["results"] and not e["results"][0].get("panic"):
+                full[(c["fen"], tuple(c["moves"]), c["depth"])] = e["results"][0]
+        nk = nkbad = 0
+        for c, e in zip(r["cases"], r["engine"]):
+            if c["group"] != "cut" or "k" not in c["specs"][0] or not e["results"]:
+                continue
+            f = full.get((c["fen"], tuple(c["moves"]), c["depth"]))
+            if f is None:
+                continue
+            nk += 1
+            k = e["results"][0]
+            same = (not k.get("panic")) and all(k.get(x) == f.get(x) for x in ("best", "score", "nodes", "seldepth")) and \
+                [w[:6] for w in k.get("writes", [])] == [w[:6] for w in f.get("writes", [])]
+            if not same:
+                nkbad += 1
+                if nkbad <= 2:
+                    rp = C.write_replay(prop, {"kind": "a search WITHOUT any time limit gave a different result when the clock jumped in mid-search: the result depends on "
+                                                       "wall time (observed on the engine alone)",
+                                               "case": c, "plain": {x: f.get(x) for x in ("best", "score", "nodes", "seldepth")},
+                                               "with_clock_jump": {x: k.get(x) for x in ("best", "score", "nodes", "seldepth", "panic")},
+                                               "replay_cmd": "printf '%s | %s | %s\\n%s | %s | d%d\\n' | %s verif search | cut -c1-160" % (
+                                                   c["fen"], " ".join(c["moves"]), c["specs"][0], c["fen"], " ".join(c["moves"]), c["depth"], C.ENGINE)})
+                    violations.append({"replay": rp})
+        cov["clock_jump_runs_compared_with_plain_runs"] = nk
     # runtime evidence (not proof): the same cases again in one process, in a second process and
     # under CPU load must give identical results
     if r is not None:
